@@ -33,6 +33,7 @@ def register(reg, prog):
                  'location_path': Seq(STR), 'location_query': Seq(STR), 'etags': Seq(BYTES), 'if_none_match': BOOL,
                  'hop_limit': Opt(INT), 'edhoc': BOOL, 'if_match': Seq(BYTES)}
     reg.classes['Options'].fields.update(OPT_VIEWS)
+    reg.opt_views = dict(OPT_VIEWS)
     reg.assume('A-OPTVIEW: the option views of an Options object (opt.block1, opt.observe, ...) are modelled as independent '
                'fields; their link to the codec dictionary `_options` is not modelled')
     reg.declare_class('Message', 'aiocoap.message:Message', fields={
